@@ -735,7 +735,30 @@ func (ex *Exec) resolveKey(st *State, k Value) Value {
 }
 
 // mapLookup returns (value, present).
+// lockCheck: accesses to watched maps must happen with the RWMutex stub counters showing a held lock.
+func (ex *Exec) lockCheck(st *State, m MapV, write bool) {
+	if st.watched == nil || !st.watched[m.Obj] {
+		return
+	}
+	get := func(name string) *Term {
+		g, ok := ex.harness.Pkg.Members[name].(*ssa.Global)
+		if !ok {
+			throwf("lock monitor: %s not found", name)
+		}
+		return st.hget(st.globalObj(ex, g)).(*Term)
+	}
+	w, r := get("verifLockW"), get("verifLockR")
+	c := ex.ctx
+	wHeld := c.Eq(w, c.BVConst(64, 1))
+	if write {
+		ex.oblige(st, wHeld, "assert", "registry written only with the write lock held", "")
+	} else {
+		ex.oblige(st, c.Or(wHeld, c.BvCmp(OBvSLt, c.BVConst(64, 0), r)), "assert", "registry read only with the lock held", "")
+	}
+}
+
 func (ex *Exec) mapLookup(st *State, m MapV, key Value, zero Value) (Value, *Term) {
+	ex.lockCheck(st, m, false)
 	mo := ex.mapObj(st, m)
 	key = ex.resolveKey(st, key)
 	c := ex.ctx
@@ -769,6 +792,7 @@ func (ex *Exec) mapUpdate(st *State, m MapV, key, val Value) {
 		ex.record(st, "panic", "assignment to entry in nil map", "", vals)
 		panic(pathEnd{"nil map"})
 	}
+	ex.lockCheck(st, m, true)
 	mo := ex.mapObj(st, m)
 	key = ex.resolveKey(st, key)
 	c := ex.ctx
